@@ -16,7 +16,11 @@ ATTRS = [
 ]
 LOOKALIKES = ["#[other::command]", "#[tauri::commands]", "#[test]", "#[command_handler]", "#[tauri::cmd]", "#[tauri::command::inner]",
               "#[mycrate::tauri::command]", "#[inline]", '#[doc = "#[tauri::command]"]', "#[allow(dead_code)]", "#[commands]"]
-OTHER_ATTRS = ["#[allow(unused)]", "#[inline]", '#[cfg(feature = "x")]', "#[must_use]", "#[allow(clippy::too_many_arguments)]", "#[tracing::instrument]"]
+OTHER_ATTRS = ["#[allow(unused)]", "#[inline]", '#[cfg(feature = "x")]', "#[must_use]", "#[allow(clippy::too_many_arguments)]", "#[tracing::instrument]",
+               # conditional compilation in all its spellings: the function is annotated and at the top level of its file, whatever gates it
+               "#[cfg(not(test))]", "#[cfg(any(test, debug_assertions))]", '#[cfg(all(not(test), target_os = "macos"))]', "#[cfg(desktop)]", "#[cfg(test)]",
+               '#[cfg_attr(feature = "trace", tracing::instrument)]', "#[cfg(debug_assertions)]", '#[cfg(any(target_os = "linux", target_os = "windows"))]',
+               '#[doc = "not #[cfg(test)]"]', "#[specta::specta]", "#[deprecated]"]
 VIS = ["pub ", "", "pub(crate) ", "pub(super) "]
 RETS = [(None, ("void",)), ("String", ("str",)), ("i32", ("num",)), ("bool", ("bool",)), ("Result<String, String>", ("str",)),
         ("Vec<u8>", ("arr", ("num",))), ("Option<f64>", ("union", (("null",), ("num",)))), ("()", ("void",)), ("Result<(), String>", ("void",))]
